@@ -34,6 +34,18 @@ CHECKS = {
              "path is not claimed (property text). set_time is a setter: it replaces the slot, it does not refuse.",
         technique="Lean 4 invariant preservation proof over attribute-pair lists + op-sequence correspondence + normal-form oracle",
         design="§4.C05"),
+    "C14": dict(
+        text="Lean: prov_to_graph / graph_to_prov transcribed on node and edge lists (node map keyed by identifier URI with overwrite, "
+             "inference table, the KeyError skip with its side effect, adjacency-order iteration). Theorems about the relation loop: at "
+             "most one edge per relation and it carries that relation (c14_step_edges), the edges' relations form a sublist of the "
+             "relations (nothing duplicated or invented, c14_edges_sublist, c14_edge_count), a relation lacking one of its first two "
+             "arguments changes nothing (c14_no_endpoint_no_change), one node per identifier (c14_endpoint_reuses); table obligations "
+             "t_inferred_class, t_only_influence_uninferable. Node list, edge list and the converted-back document of the real "
+             "MultiDiGraph are compared with the model and with an independent specification computed from the unified document.",
+        note=A_COMMON + " networkx is assumed to be a node set + edge multiset with adjacency-order iteration (A-EXT). Influence relations "
+             "with an undeclared endpoint may or may not be drawn (documented exception; order dependent).",
+        technique="Lean 4 induction over the relation fold + node/edge list correspondence with networkx + independent graph spec",
+        design="§4.C14"),
     "C18": dict(
         text="Lean: _id_map is modelled as a separate component and proved to be the URI-indexed view of _records: c18_idmap_append, "
              "c18_coherent_add (one _add_record), and WF (all containers coherent, all references allocated) is preserved by new_record "
